@@ -469,11 +469,10 @@ struct DocumentPredicate
     static bool
     isDocument(const XalanNode&     node)
     {
-        const XalanNode::NodeType   nodeType =
-            node.getNodeType();
-
-        return nodeType == XalanNode::DOCUMENT_NODE ||
-               nodeType == XalanNode::DOCUMENT_FRAGMENT_NODE;
+        // Only the document node contains every node of its document.
+        // A document fragment is one of several trees in its owner
+        // document, so it is ordered like any other node of it.
+        return node.getNodeType() == XalanNode::DOCUMENT_NODE;
     }
 
     static const XalanNode*
